@@ -4,7 +4,8 @@ Correspondence: real `latlon_from_poly` / `get_location` with recorded draws aga
 model, given the triangulation returned by the real `triangulate_nonconvex_multi` (validated: vertices
 are polygon vertices, exact area sum).  Oracle: exact rational point-in-polygon on the implementation's
 output, particle counts, axis convention, GeoJSON property join against an independent join, metric
-offsets converted back to metres, degree<->metre conversions against the radii of the WGS84 ellipsoid."""
+offsets converted back to metres, degree<->metre conversions against the radii of the WGS84 ellipsoid.  Locations used more than
+once: the same containers (round 8), and a GeoJSON file name whose file changes between the uses (round 9, oracle only)."""
 import io, json, importlib, math, os, tempfile
 import numpy as np
 from .common import Driver, F, I, L, unF, RngRecorder
@@ -27,6 +28,18 @@ RULE = ("random simple polygons (star-shaped 3..12 vertices, comb/L-shaped non-c
         "array, two 1-D float arrays in a list / tuple, a transposed view of a vertex table, integer lists / arrays; centres as list / tuple / array), "
         "polygon and multi-polygon (lists, tuples, 1-D float arrays, one 2-D / 3-D array) and a GeoJSON file given by name; every use is judged "
         "against the location as it was given. Round-trip conversions of float arrays are also compared with the arrays the caller passed. "
+        "A GeoJSON location given by file NAME and used 2..7 times in one process while what the name refers to changes between the uses "
+        "(round 9): 2..3 versions of the document, each used once or twice, sometimes the first one again at the end; the file rewritten in "
+        "place, replaced atomically (os.replace), removed and created again, rewritten with the same size and the same time stamps, the same "
+        "relative name used from another working directory, equally named files in different directories (absolute / relative names), a "
+        "symbolic link pointed at another file, and a YAML configuration file (given by name, rewritten for every use) that names another "
+        "GeoJSON file each time; absolute, relative and ./ names, with / without a sub-directory, base names with non-ASCII letters and a "
+        "blank; the versions are unrelated areas, the same features moved east / west by 0.5 / 1.25 / 3 widths of the area, the same "
+        "polygons with changed / dropped / added property values, or a reordered subset of the features; used through get_location, "
+        "make_release with a configuration object (flat or 1..2 groups on the name, sometimes next to a group with an inline polygon; with / "
+        "without seed), make_release with the YAML file, or a mixture; every use is judged against the document the name referred to when "
+        "the call was made (positions inside its polygons, properties of its containing feature; through make_release the values that the "
+        "feature has, by value). "
         "Non-trivial: num >= 1.")
 ASSUMPTIONS = ["the external `triangle` library's triangulation is validated per case (vertices, exact area sum), not proved to cover the polygon",
                "positions within 1e-11 (relative) outside an edge are counted as on the edge (floating-point evaluation of the convex combination)",
@@ -278,12 +291,23 @@ def gen_geojson(ctx):
     return doc, flat, feats, tags, clash
 
 
+def inside_near(p, x, y):
+    """geom.inside_tol(p, x, y), with the exact rational test skipped for points that are clearly away from the polygon's bounding
+    box: a point inside or on the edge is in the box, and one that inside_tol counts as on the edge is within 1e-11 * scale of an
+    edge, hence of the box (margin doubled for the float evaluation of that distance) -- the same verdict, only cheaper"""
+    m = 2e-11 * (max(max(abs(a), abs(b)) for a, b in p) + 1.0)
+    xs = [a for a, _ in p]; ys = [b for _, b in p]
+    if x < min(xs) - m or x > max(xs) + m or y < min(ys) - m or y > max(ys) + m:
+        return False
+    return geom.inside_tol(p, x, y)
+
+
 def geojson_particles(ctx, out, flat, allprops, n, clash, cs, m):
     """the first m particles of the table `out`: inside a polygon of the file, and carrying the properties of the feature
     whose polygon contains them (independent join: the owner is found by point-in-polygon on the returned position)"""
     for i in range(m):
         x, y = out["longitude"][i], out["latitude"][i]
-        owners = [(f, props) for f, p, props in flat if geom.inside_tol(p, x, y)]
+        owners = [(f, props) for f, p, props in flat if inside_near(p, x, y)]
         ctx.oracle(len(owners) >= 1, "C03.geojson.outside_polygon", SITE + "::get_location_file",
                    "particle %d at (%r,%r) in no polygon" % (i, x, y), dict(cs, particle=i))
         if len(owners) == 1:
@@ -582,6 +606,314 @@ def reuse_cases(ctx, mk):
                                "particle %d of group %d at (%r,%r) in no polygon" % (j, i, lon[j], lat[j]), dict(cs, particle=j))
 
 
+# ------------------------------------------------------------------------------------------------------------------
+# A GeoJSON location given by FILE NAME, used more than once in one process while what the name refers to changes
+# between the uses (round 9).  A release area is edited / regenerated under the same name (a script that rewrites
+# area.geojson per farm or per scenario and calls make_release each time), the same relative name is used from another
+# working directory, equally named files lie in different directories, a link is pointed at another file, or the YAML
+# configuration (itself given by name) is rewritten.  "The given polygons" of a location given by name are the polygons the
+# file of that name contains when the location is used: every use is judged against the document that the name referred to
+# AT THE TIME OF THE CALL (plain numbers written down by the generator, read off the document by flat_of below).
+
+FILE_LAYOUTS = ("rewrite", "replace", "remove_create", "same_stat", "chdir", "same_basename", "symlink", "config_rewritten")
+FILE_EDITS = ("new_area", "moved", "props_only", "features_subset")
+FILE_BASENAMES = ("area.geojson", "release_area.geojson", "område.geojson", "cage 1.json")
+
+
+def doc_rings(doc):
+    """the exterior rings of a FeatureCollection, per feature (RFC 7946: the first ring of a Polygon is its exterior, closed by
+    repeating the first position; a MultiPolygon is a list of Polygons)"""
+    for f, ft in enumerate(doc["features"]):
+        g = ft["geometry"]
+        for ring in ([g["coordinates"][0]] if g["type"] == "Polygon" else [p[0] for p in g["coordinates"]]):
+            yield f, ft, ring
+
+
+def flat_of(doc):
+    """[(feature index, polygon [(lon, lat)], properties)] read off the document"""
+    return [(f, [(c[0], c[1]) for c in ring[:-1]], ft.get("properties") or {}) for f, ft, ring in doc_rings(doc)]
+
+
+def props_of(doc):
+    names = []
+    for ft in doc["features"]:
+        for k_ in (ft.get("properties") or {}):
+            if k_ not in names:
+                names.append(k_)
+    return names
+
+
+def fresh_geojson(ctx, min_features=1):
+    while True:
+        doc, flat, feats, tags, clash = gen_geojson(ctx)
+        if clash is None and len(feats) >= min_features:
+            assert [(f, [tuple(q) for q in p], pr) for f, p, pr in flat] == flat_of(doc), "generator self-check: flat_of reads the document differently"
+            return doc, tags
+
+
+def moved_doc(rng, doc):
+    """the same features and properties, every polygon moved east / west by 0.5, 1.25 or 3 times the width of the whole area
+    (0.5: the old and the new area overlap); None if rounding made a polygon non-simple"""
+    import copy
+    new = copy.deepcopy(doc)
+    pos = [c for _, _, ring in doc_rings(new) for c in ring]
+    xs = [c[0] for c in pos]
+    dx = rng.choice([0.5, 1.25, 3.0]) * rng.choice([-1, 1]) * (max(xs) - min(xs))
+    if all(isinstance(c[0], int) for c in pos):
+        dx = int(math.copysign(math.ceil(abs(dx)), dx))
+    for c in pos:
+        c[0] = c[0] + dx
+    if not all(geom.is_simple(p) for _, p, _ in flat_of(new)):
+        return None
+    return new
+
+
+def reprops_doc(rng, doc, rich):
+    """the same polygons; property values changed, properties dropped and added"""
+    import copy
+    new = copy.deepcopy(doc)
+    names = PROP_NAMES if rich else ("region", "farmid", "w")
+    for f, ft in enumerate(new["features"]):
+        pool = [f + 1, 10.5 * (f + 1), 7, "farm %d" % f, "blåskjell", "", True, False, None, -3, 0, 0.0, 1e300] if rich else [f + 1, 10.5 * (f + 1), 7, f + 11, 2.5]
+        old = ft.get("properties") or {}
+        props = {}
+        for name in names:
+            if name in old:
+                t = rng.random()
+                if t >= 0.2:                                       # else: dropped
+                    props[name] = old[name] if t < 0.5 else rng.choice(pool)
+            elif rng.random() < 0.3:
+                props[name] = rng.choice(pool)
+        ft["properties"] = props
+    if repr([ft.get("properties") or {} for ft in new["features"]]) == repr([ft.get("properties") or {} for ft in doc["features"]]):
+        new["features"][0]["properties"] = dict(new["features"][0]["properties"], region=1000 + rng.randrange(1000))
+    return new
+
+
+def subset_doc(rng, doc):
+    """some of the features (at least one, not all), in another order"""
+    import copy
+    new = copy.deepcopy(doc)
+    new["features"] = rng.sample(new["features"], rng.randrange(1, len(new["features"])))
+    return new
+
+
+def gen_versions(ctx, edit, nver):
+    """nver documents: what the file name refers to, one after the other"""
+    rng = ctx.rng
+    base, tags = fresh_geojson(ctx, 2 if edit == "features_subset" else 1)
+    docs = [base]
+    for v in range(1, nver):
+        new = None
+        if edit == "moved":
+            new = moved_doc(rng, docs[-1])
+        elif edit == "props_only":
+            new = reprops_doc(rng, docs[-1], "props.rich" in tags)
+        elif edit == "features_subset":
+            new = subset_doc(rng, base)
+        if new is None:
+            new = fresh_geojson(ctx)[0]
+        docs.append(new)
+    return docs, tags
+
+
+def release_join(ctx, out, rows, flat, allprops, gid, cs, site):
+    """rows `rows` of make_release's table: inside a polygon of the document, and carrying every value that the containing feature
+    has (make_release's table writes 0 where there is no value and lets a release attribute of the same name take precedence: only
+    values that the feature HAS are judged here, by value, and not the names that the group itself sets)"""
+    for j in rows:
+        x, y = out["longitude"][j], out["latitude"][j]
+        owners = [(f, props) for f, p, props in flat if inside_near(p, x, y)]
+        ctx.oracle(len(owners) >= 1, "C03.geojson.outside_polygon", site,
+                   "row %d (group %d) at (%r,%r) in no polygon of the file as it was when make_release was called" % (j, gid, x, y), dict(cs, row=j))
+        if len(owners) == 1:
+            f, props = owners[0]
+            for name in allprops:
+                want = props.get(name)
+                if name in ("depth", "gid", "date", "longitude", "latitude") or is_none(want):
+                    continue
+                got = out[name][j] if name in out else None
+                # by value: make_release's table has one pandas column per name for all groups and features, so a number or a boolean
+                # may come back in another numeric type (False next to features without the property: 0.0); text stays text
+                if isinstance(want, str) or isinstance(got, str):
+                    same = isinstance(want, str) and isinstance(got, str) and got == want
+                else:
+                    same = got is not None and bool(got == want)
+                ctx.oracle(same, "C03.geojson.property_join", site,
+                           "row %d (group %d) in feature %d: column %s = %r (%s), feature has %r (%s)" % (j, gid, f, name, got, type(got).__name__, want, type(want).__name__),
+                           dict(cs, row=j))
+
+
+def changing_file_cases(ctx, mk):
+    import shutil, random
+    import yaml                      # here and not in the child processes: imported once
+    rng = ctx.rng
+    for c in range(ctx.n(48, 700)):
+        layout = rng.choice(FILE_LAYOUTS)
+        edit = rng.choice(FILE_EDITS)
+        via = "make_release.yaml_file" if layout == "config_rewritten" else rng.choice(["get_location", "get_location", "make_release", "make_release.yaml_file", "mixed"])
+        nver = rng.choice([2, 2, 3])
+        docs, tags = gen_versions(ctx, edit, nver)
+        ctx.branch("changing_file.layout." + layout); ctx.branch("changing_file.edit." + edit); ctx.branch("changing_file.via." + via)
+        ctx.size("changing_file.versions", nver)
+        for t in tags:
+            ctx.branch("changing_file.geojson." + t)
+        # ---- which version the name refers to at each use: every version once or twice, in order; sometimes the first one again
+        seq = []
+        for v in range(nver):
+            seq += [v] * rng.choice([1, 1, 2])
+        if rng.random() < 0.3:
+            seq.append(0); ctx.branch("changing_file.first_version_again")
+        # ---- names
+        base = rng.choice(FILE_BASENAMES)
+        sub = rng.choice(["", "", "data"])
+        if layout in ("chdir",):
+            nameform = rng.choice(["rel", "dotrel"])
+        elif layout in ("same_basename", "config_rewritten"):
+            nameform = rng.choice(["abs", "rel"])
+        else:
+            nameform = rng.choice(["abs", "abs", "rel", "dotrel"])
+        ctx.branch("changing_file.name." + nameform + (".subdir" if sub else ""))
+        root = tempfile.mkdtemp(prefix="c03_")
+        rel = os.path.join(sub, base) if sub else base
+        per_version = layout in ("chdir", "same_basename", "config_rewritten", "symlink")
+        vdir = [os.path.join(root, "run%d" % v) if per_version else root for v in range(nver)]
+        if layout == "symlink":
+            file_of = [os.path.join(vdir[v], base) for v in range(nver)]            # the link root/rel points at one of these
+            cwd_of = [root] * nver
+            name_of = [dict(abs=os.path.join(root, rel), rel=rel, dotrel="./" + rel)[nameform]] * nver
+        elif layout == "chdir":
+            file_of = [os.path.join(vdir[v], rel) for v in range(nver)]
+            cwd_of = vdir
+            name_of = [dict(rel=rel, dotrel="./" + rel)[nameform]] * nver
+        elif per_version:
+            file_of = [os.path.join(vdir[v], rel) for v in range(nver)]
+            cwd_of = [root] * nver
+            name_of = [file_of[v] if nameform == "abs" else os.path.join("run%d" % v, rel) for v in range(nver)]
+        else:
+            file_of = [os.path.join(root, rel)] * nver
+            cwd_of = [root] * nver
+            name_of = [dict(abs=os.path.join(root, rel), rel=rel, dotrel="./" + rel)[nameform]] * nver
+        texts = [json.dumps(d, ensure_ascii=False).encode("utf-8") for d in docs]
+        if layout == "same_stat":
+            m = max(len(t) for t in texts)
+            texts = [t + b" " * (m - len(t)) for t in texts]         # same size in bytes (white space after the document), same times
+        yaml_path = os.path.join(root, "release.yaml")
+        # ---- the uses (every random choice here, before the fork)
+        uses = []
+        for u, v in enumerate(seq):
+            kind = via if via != "mixed" else rng.choice(["get_location", "make_release", "make_release.yaml_file"])
+            use = dict(version=v, kind=kind, seeds=(ctx.sub_seed(), ctx.sub_seed()))
+            if kind == "get_location":
+                use["n"] = rng.choice([1, 3, 10, 25, 25, 2, 0])
+            else:
+                groups = []
+                for g in range(rng.choice([1, 1, 2])):
+                    d0 = "20%02d-%02d-%02d" % (rng.randrange(0, 30), rng.randrange(1, 13), rng.randrange(1, 29))
+                    groups.append(dict(date=d0 if rng.random() < 0.6 else [d0, "2031-01-01T06"], num=rng.choice([1, 3, 10, 25, 25]), location=name_of[v], gid=g))
+                if rng.random() < 0.3:
+                    # a neighbour group with a polygon written in the configuration (its rows are not judged here)
+                    groups.insert(rng.randrange(len(groups) + 1), dict(date="2015-06-01", num=rng.choice([1, 4]), gid=99,
+                                                                       location=[[1.0, 2.0, 1.5], [60.0, 60.0, 61.0]]))
+                if len(groups) == 1 and rng.random() < 0.5:
+                    conf = dict(groups[0])
+                else:
+                    conf = dict(groups=groups)
+                if rng.random() < 0.5:
+                    conf["seed"] = rng.randrange(1000)
+                use["conf"] = conf; use["groups"] = [(g["gid"], g["num"]) for g in groups if g["gid"] != 99]
+            uses.append(use)
+            ctx.branch("changing_file.use." + kind)
+        ctx.case(key=("changing_file", layout, edit, via, c), nontrivial=any(us.get("n", 1) > 0 for us in uses))
+        cs0 = dict(form="geojson by file name", layout=layout, edit=edit, name=name_of[0] if len(set(name_of)) == 1 else name_of,
+                   versions=docs, uses=[(us["version"], us["kind"], us.get("n", us.get("groups"))) for us in uses])
+        site = SITE + "::get_location"
+
+        def do_uses():
+            def write(path, data):
+                os.makedirs(os.path.dirname(path), exist_ok=True)
+                with open(path, "wb") as f:
+                    f.write(data)
+            os.chdir(root)
+            if per_version:
+                for v in range(nver):
+                    write(file_of[v], texts[v])
+            cur = None; st0 = None
+            results = []
+            for u, use in enumerate(uses):
+                v = use["version"]
+                if v != cur:
+                    # make the name refer to version v
+                    p = file_of[v]
+                    if layout == "rewrite":
+                        write(p, texts[v])
+                    elif layout == "replace":
+                        write(p + ".new", texts[v]); os.replace(p + ".new", p)
+                    elif layout == "remove_create":
+                        if os.path.exists(p):
+                            os.unlink(p)
+                        write(p, texts[v])
+                    elif layout == "same_stat":
+                        write(p, texts[v])
+                        if st0 is None:
+                            st0 = os.stat(p)
+                        else:
+                            os.utime(p, ns=(st0.st_atime_ns, st0.st_mtime_ns))
+                    elif layout == "symlink":
+                        link = os.path.join(root, rel)
+                        os.makedirs(os.path.dirname(link), exist_ok=True)
+                        os.symlink(p, link + ".new"); os.replace(link + ".new", link)
+                    cur = v
+                os.chdir(cwd_of[v])
+                try:
+                    with RngRecorder(use["seeds"][0], ibmrun.tail_injector(random.Random(use["seeds"][1]), 0.1)) as rec:
+                        if use["kind"] == "get_location":
+                            out = mk.get_location(name_of[v], use["n"])
+                        elif use["kind"] == "make_release":
+                            out = mk.make_release(use["conf"])
+                        else:
+                            with open(yaml_path, "w", encoding="utf8") as f:       # the configuration file: same name, rewritten for every use
+                                yaml.safe_dump(use["conf"], f, allow_unicode=True)
+                            out = mk.make_release(yaml_path)
+                except Exception as e:
+                    results.append(("raised", "%r" % (e,), None)); break
+                results.append(("ok", out, rec.schedule()))
+            return results
+
+        try:
+            status, res = in_child(do_uses)
+        finally:
+            shutil.rmtree(root, ignore_errors=True)
+        if status != "ok":
+            ctx.oracle(False, "C03.geojson.raises", site, "a GeoJSON file given by name, used %d times: %s" % (len(uses), res), cs0)
+            continue
+        for u, (use, (st, out, sched)) in enumerate(zip(uses, res)):
+            v = use["version"]
+            cs = dict(cs0, use=u, version=v)
+            when = "use %d, when the name referred to version %d of the file" % (u, v)
+            if st != "ok":
+                ctx.oracle(False, "C03.geojson.raises", site, "%s (%s): raised %s" % (when, use["kind"], out), cs)
+                continue
+            flat = flat_of(docs[v]); allprops = props_of(docs[v])
+            if use["kind"] == "get_location":
+                n = use["n"]
+                exp = [("rand", (n,)), ("rand", (2 * n,))]
+                if [tuple(x) for x in sched] != exp:
+                    ctx.disagreement("get_location.geojson.changing_file.draw_schedule", "model declares %r, implementation requested %r" % (exp, sched), cs)
+                else:
+                    ctx.schedule_matches += 1
+                lens = [len(out[k_]) for k_ in ["longitude", "latitude"] + [a for a in allprops if a in out]]
+                ctx.oracle(all(l == n for l in lens), "C03.geojson.count", SITE + "::get_location_file",
+                           "%s: %d particles requested, returned columns have lengths %r" % (when, n, lens), cs)
+                geojson_particles(ctx, out, flat, allprops, n, None, dict(cs, when=when), min(lens))
+            else:
+                for gid, num in use["groups"]:
+                    rows = [j for j, g in enumerate(out.get("gid", [])) if g == gid]
+                    ctx.oracle(len(rows) == num, "C03.geojson.count", SITE + "::make_release",
+                               "%s: group %d asked for %d particles, the table has %d rows of it" % (when, gid, num, len(rows)), cs)
+                    release_join(ctx, out, rows, flat, allprops, gid, dict(cs, when=when), SITE + "::make_release")
+
+
 def run(ctx):
     mk = importlib.import_module("ladim_plugins.release.makrel")
     drv = Driver()
@@ -778,6 +1110,7 @@ def run(ctx):
                 continue
         geojson_particles(ctx, out, flat, allprops, n, clash, cs, min(lens.values()))
     reuse_cases(ctx, mk)
+    changing_file_cases(ctx, mk)
     if drv.available:
         rep = drv.run()
         for j, lat, lon, polynum, pidx, cs in pend:
